@@ -85,6 +85,15 @@ def render_cb(prog, cbid, indent="    "):
             f"{indent}    return SIM.cb({full!r}, self, {{}}, {grp!r})\n"
         )
     deco = f"{indent}@_sim_deco\n" if meta.get("wrapped") else ""
+    if meta.get("noself") and [(q["name"], q["kind"]) for q in meta.get("sig", [])] == [("args", "var"), ("kw", "varkw")]:
+        # a method that takes the instance through ``*args`` (catch-all listener methods, hand-written
+        # pass-through wrappers): the event's positional arguments follow the instance
+        loc = '{"args": tuple(args[1:]), "kw": kw}'
+        if meta.get("async"):
+            return (f"{deco}{indent}async def {name}(*args, **kw):\n"
+                    f"{indent}    return await SIM.acb({full!r}, args[0], {loc}, {grp!r})\n")
+        return (f"{deco}{indent}def {name}(*args, **kw):\n"
+                f"{indent}    return SIM.cb({full!r}, args[0], {loc}, {grp!r})\n")
     if meta.get("awaitable") and not meta.get("async"):
         # a plain function that RETURNS an awaitable (e.g. an undecorated wrapper around a coroutine
         # function): the async engine must await the value it returns
@@ -191,6 +200,12 @@ def render_listener(prog, role):
                 body.append(render_cb(prog, cbid))
     if init:
         body.insert(0, "    _sim_takes_tag = True\n    def __init__(self, _tag=None):\n" + "".join(init))
+    falsy = (prog.get("listener_falsy") or {}).get(role)
+    if falsy == "len":
+        # a listener that is falsy (an empty recorder with __len__): still a listener like any other
+        body.append("    def __len__(self):\n        return 0\n")
+    elif falsy == "bool":
+        body.append("    def __bool__(self):\n        return False\n")
     if prog.get("listener_eq_all"):
         # every listener object compares (and hashes) equal to every other one, across classes
         body.append("    def __eq__(self, other):\n        return hasattr(other, '_sim_role')\n"
